@@ -173,6 +173,7 @@ func (c *cluster) load(cli EtcdClient, key string) int64 {
 func (c *cluster) handleChanges(key string, kvs []KV) {
 	var add []KV
 	var remove []KV
+	var change []KV
 
 	c.lock.Lock()
 	listeners := append([]UpdateListener(nil), c.listeners[key]...)
@@ -190,8 +191,14 @@ func (c *cluster) handleChanges(key string, kvs []KV) {
 			m[kv.Key] = kv.Val
 		}
 		for k, v := range vals {
-			if vals, ok := m[k]; !ok || v != vals {
+			if val, ok := m[k]; !ok {
 				remove = append(remove, KV{
+					Key: k,
+					Val: v,
+				})
+			} else if v != val {
+				// 键仍在但值已变：必须先移除旧值，再添加新值
+				change = append(change, KV{
 					Key: k,
 					Val: v,
 				})
@@ -208,6 +215,13 @@ func (c *cluster) handleChanges(key string, kvs []KV) {
 		c.values[key] = m
 	}
 	c.lock.Unlock()
+
+	// 处理值已变更的键的旧值
+	for _, kv := range change {
+		for _, l := range listeners {
+			l.OnDelete(kv)
+		}
+	}
 
 	// 处理新增
 	for _, kv := range add {
